@@ -75,7 +75,7 @@ def run(ctx):
     open(cfg, "w").write("cfg errormode prefix\n")
     rc, out = sh("cat %s %s %s | %s" % (cfg, ops, cout, driver), timeout=3000)
     langs = trees = tree_ok = tree_err = 0
-    model_ok = model_skip = model_bad = 0
+    model_ok = model_skip = model_bad = model_shapevars = model_inlined = 0
     corr_cmp = corr_bad = judge_eval = judge_bad = 0
     distinct = set()
     samples = []
@@ -105,6 +105,8 @@ def run(ctx):
             mc = kv.get("model_closed", "")
             if mc.startswith("ok"):
                 model_ok += 1
+                model_shapevars += int(kv.get("shapevars", "0") or 0)
+                model_inlined += 1 if int(kv.get("inlined", "0") or 0) > 0 else 0
             elif mc.startswith("SKIP"):
                 model_skip += 1
             else:
@@ -178,7 +180,7 @@ def run(ctx):
                 "or a child allowed only through a supertype; distinct by hash of (grammar, document)",
         "samples": samples, "languages": langs, "trees_judged": trees, "trees_conforming": tree_ok, "trees_with_errors_skipped": tree_err,
         "grammars_rejected_or_skipped": skips[:10], "random_grammar_features": feat_hist, "document_tokens": sizes, "totals": tot,
-        "model_closed": {"closed": model_ok, "out_of_scope": model_skip, "not_closed_unexpected": model_bad},
+        "model_closed": {"rules_with_productions_compared_to_real_reduce_actions": model_shapevars, "grammars_with_inlined_rules": model_inlined, "closed": model_ok, "out_of_scope": model_skip, "not_closed_unexpected": model_bad},
         "correspondence": {"compared": corr_cmp, "equal": corr_cmp - corr_bad},
         "judge": {"evaluated": judge_eval, "passed": judge_eval - judge_bad},
         "impl_vs_judge_failures": judge_bad, "model_vs_impl_disagreements": corr_bad,
